@@ -37,8 +37,28 @@ pub struct Case {
     /// 0 = uniform ids; otherwise ids share this many leading bits with the first info-hash
     cluster_bits: u8,
     lat: Vec<u16>,
+    /// unordered node pairs between which every datagram takes 750..999 ms (round trips of
+    /// 1.5..2 s, i.e. beyond the query timeout); all other pairs keep round trips < 1.5 s
+    #[serde(default)]
+    slow_pairs: Vec<(u8, u8)>,
     events: Vec<Evt>,
     rt_seed: u64,
+}
+
+struct SlowPolicy {
+    fast: RttBudget,
+    slow: std::collections::HashSet<(SocketAddr, SocketAddr)>,
+}
+
+impl Policy for SlowPolicy {
+    fn fate(&mut self, d: &Dgram) -> Fate {
+        if self.slow.contains(&(d.from, d.to)) {
+            let h = crate::engine::splitmix((d.seq as u64) << 20 ^ d.from.port() as u64 ^ (d.to.port() as u64) << 8);
+            Fate::Deliver(vec![Duration::from_millis(750 + h % 250)])
+        } else {
+            self.fast.fate(d)
+        }
+    }
 }
 
 pub struct EndToEnd {
@@ -111,9 +131,10 @@ impl Stage for EndToEnd {
                     vec(prop_oneof![Just(0u16), 0u16..100, 0u16..999], 1..64),
                     vec(evt, 2..=max_ev),
                     any::<u64>(),
+                    prop_oneof![2 => Just(vec![]), 1 => vec((0u8..n as u8, 0u8..n as u8), 1..(2 * n))],
                 )
             })
-            .prop_map(move |(v6, nodes, cluster_bits, lat, mut events, rt_seed)| {
+            .prop_map(move |(v6, nodes, cluster_bits, lat, mut events, rt_seed, slow_pairs)| {
                 // every history starts with an announce so that there is something to find
                 events[0].announce = true;
                 if long && rt_seed % 5 < 2 {
@@ -138,7 +159,7 @@ impl Stage for EndToEnd {
                     t.extend(events);
                     events = t;
                 }
-                Case { v6, nodes, cluster_bits, lat, events, rt_seed }
+                Case { v6, nodes, cluster_bits, lat, slow_pairs, events, rt_seed }
             })
             .boxed()
     }
@@ -146,9 +167,20 @@ impl Stage for EndToEnd {
         let rt = paused_rt(c.rt_seed);
         rt.block_on(async {
             let n = c.nodes.len();
-            let net = SimNet::new(Box::new(RttBudget::new(c.lat.clone(), 1490)));
-            net.set_logging(false);
             let addrs: Vec<SocketAddr> = (0..n).map(|i| fam_addr(c.v6, 10 + i as u16, 6881 + i as u16)).collect();
+            let mut slow = std::collections::HashSet::new();
+            let mut slow_idx = std::collections::HashSet::new();
+            for (a, b) in &c.slow_pairs {
+                let (a, b) = (*a as usize % n, *b as usize % n);
+                if a != b {
+                    slow.insert((addrs[a], addrs[b]));
+                    slow.insert((addrs[b], addrs[a]));
+                    slow_idx.insert((a.min(b), a.max(b)));
+                }
+            }
+            let is_slow = |x: usize, y: usize| slow_idx.contains(&(x.min(y), x.max(y)));
+            let net = SimNet::new(Box::new(SlowPolicy { fast: RttBudget::new(c.lat.clone(), 1490), slow }));
+            net.set_logging(false);
             let mut dhts: Vec<MainlineDht> = vec![];
             for i in 0..n {
                 let id = if c.cluster_bits == 0 { rand_id(c.nodes[i].0) } else { clustered_id(&hash_n(0), c.cluster_bits as usize, c.nodes[i].0) };
@@ -218,7 +250,10 @@ impl Stage for EndToEnd {
                     }
                     let addr = contact(a);
                     let has = s.found.contains(&addr);
-                    let must = anns.iter().any(|o| o.end.unwrap() + ANNOUNCE_MARGIN <= s.start && s_end <= o.end.unwrap() + DAY - 60_000);
+                    // with slow pairs the guarantee needs a third node that both the announcer and
+                    // the searcher reach within the query timeout
+                    let witness = slow_idx.is_empty() || (0..n).any(|x| x != a && x != s.node && !is_slow(a, x) && !is_slow(s.node, x));
+                    let must = witness && anns.iter().any(|o| o.end.unwrap() + ANNOUNCE_MARGIN <= s.start && s_end <= o.end.unwrap() + DAY - 60_000);
                     let must_not_find = anns.iter().all(|o| o.end.unwrap() + DAY + 60_000 <= s.start || o.start > s_end);
                     if must {
                         must_find += 1;
@@ -245,7 +280,7 @@ impl Stage for EndToEnd {
                 }
             }
             let nt = if self.long { must_find >= 1 && must_not >= 1 } else { n >= 3 && must_find >= 1 && overlapped };
-            Outcome::pass(nt).label(format!("n:{n}")).label(if must_not > 0 { "expiry-asserted" } else { "no-expiry-asserted" })
+            Outcome::pass(nt).label(format!("n:{n}")).label(if must_not > 0 { "expiry-asserted" } else { "no-expiry-asserted" }).label(if slow_idx.is_empty() { "all-fast" } else { "slow-pairs" })
         })
     }
     fn rule(&self) -> String {
@@ -255,7 +290,7 @@ impl Stage for EndToEnd {
             "2..10 operations separated by gaps from {0..1.2 s, 1.2..60 s, 1..10 min, 10..60 min}; networks of 2..9 nodes"
         };
         format!(
-            "networks of real serving nodes only (all given each other as contacts, sockets bound first), one address family, ids uniform or clustered (1..151 bits shared with the info-hash), per-node announce port none/some, per-datagram latencies 0..999 ms with query->answer round trips < 1.5 s, loss-free; {span}; each operation is an announcing or plain search for one of 2 info-hashes on some node, 30 % of them overlapping the next. Oracle: a search by B started >= 1.1 s after A's announcing search ended and finished <= 24 h - 60 s after it must yield A's IP with its announce port (or socket port); a search started >= 24 h + 60 s after the end of every announce of A (none in progress) must not; in between nothing is asserted; every operation ends; every node reports bootstrapped. Non-trivial: {}",
+            "networks of real serving nodes only (all given each other as contacts, sockets bound first), one address family, ids uniform or clustered (1..151 bits shared with the info-hash), per-node announce port none/some, per-datagram latencies 0..999 ms with query->answer round trips < 1.5 s, loss-free; in a third of the cases some node pairs are slow in both directions (750..999 ms per datagram, round trips beyond the 1.5 s query timeout), and then the must-find assertion requires a third node that announcer and searcher both reach over fast pairs; {span}; each operation is an announcing or plain search for one of 2 info-hashes on some node, 30 % of them overlapping the next. Oracle: a search by B started >= 1.1 s after A's announcing search ended and finished <= 24 h - 60 s after it must yield A's IP with its announce port (or socket port); a search started >= 24 h + 60 s after the end of every announce of A (none in progress) must not; in between nothing is asserted; every operation ends; every node reports bootstrapped. Non-trivial: {}",
             if self.long { "one must-find and one must-not-find assertion in the same history" } else { ">= 3 nodes, a must-find assertion and overlapping operations" }
         )
     }
